@@ -83,8 +83,15 @@ def main():
         kind = None
         if a.replay:
             pl = json.load(open(a.replay))["payload"]
-            kind = "sched" if "plan" in pl else "adopt" if "adopt" in pl else "jobdir"
+            kind = "sched" if "plan" in pl else "adopt" if "adopt" in pl else "token" if "token_scenario" in pl else "jobdir"
         rep = None
+        if kind == "token":
+            from . import checks_token
+            from .common import Report
+
+            rep = Report(a.prop, a.tier, "model_checking")
+            checks_token.run(rep, a.prop, a.tier, replay_name=pl["token_scenario"])
+            return rep.finish()
         if kind == "adopt":
             from . import checks_adopt
             from .common import Report
@@ -121,6 +128,10 @@ def main():
             from . import checks_restart
 
             checks_restart.run(rep, a.tier)
+            # ... and the token directory a dead scheduler left (token.info truncated, not yet written)
+            from . import checks_token
+
+            checks_token.run(rep, "C11", a.tier, only=["info_torn"])
         return rep.finish()
     print(f"no check for {a.prop}", file=sys.stderr)
     return 2
